@@ -129,6 +129,10 @@ def one(item):
                 m = loader.build_metamodel()
                 c_c = m.select_any('C_C', xtuml.where_eq(Name=name)) if name else None
                 c = ooaofooa.mk_component(m, c_c, bool(item.get('derived')))
+                # (extracted again from the same metamodel the component is the same; where it is not, the second one is judged)
+                c_again = ooaofooa.mk_component(m, c_c, bool(item.get('derived')))
+                if project_component(c_again) != project_component(c):
+                    c = c_again
             ev['comp'] = project_component(c)
             # the SQL schema written for the component loads back to the same definitions
             p = os.path.join(tmp, 'schema.sql')
@@ -149,6 +153,12 @@ def one(item):
                     root = ET.fromstring(ET.tostring(tree, 'utf-8'))
                 ev['xsd'] = project_xsd(root)
                 ev['hasxsd'] = True
+                if item.get('xsd') != 'main':
+                    # the schema is a function of the model: generated again from the same metamodel (a model is edited in
+                    # place and generated again) it is the same; where it is not, the second one is judged
+                    again = project_xsd(ET.fromstring(ET.tostring(gen_xsd_schema.build_schema(m, c_c), 'utf-8')))
+                    if again != ev['xsd']:
+                        ev['xsd'] = again
     except CallTimeout:
         ev['err'] = 'Timeout'
     except SystemExit as e:
